@@ -1,0 +1,17 @@
+//go:build verif
+
+package set
+
+import "math/rand"
+
+// VerifSetShuffleSeed re-seeds the package-level generator that shuffles the iteration order of
+// the unordered set, so that a run can be repeated.
+func VerifSetShuffleSeed(seed int64) {
+	r = rand.New(rand.NewSource(seed))
+}
+
+// VerifSetShuffleSource makes the unordered set draw its shuffles from src
+// (a scripted source makes every iteration order a known function of the script).
+func VerifSetShuffleSource(src rand.Source) {
+	r = rand.New(src)
+}
